@@ -62,6 +62,23 @@ def q1(run: Run, prog: Program, masters):
             if isinstance(node, ast.If) and _mentions_silence(node.test):
                 n_cond += 1
                 bad = [s for s in node.body + node.orelse if not _is_output_stmt(s)]
+                # a local that only prepares the message: assigned from call-free
+                # expressions and read nowhere outside this block
+                inside = {id(x) for x in ast.walk(node)}
+
+                def message_local(s_):
+                    if not (isinstance(s_, ast.Assign) and all(
+                            isinstance(t, ast.Name) for t in s_.targets)):
+                        return False
+                    if any(isinstance(c, (ast.Call, ast.Await, ast.Yield))
+                           and not (isinstance(c, ast.Call) and isinstance(c.func, ast.Name)
+                                    and c.func.id in ("str", "len", "repr", "format"))
+                           for c in ast.walk(s_.value)):
+                        return False
+                    names_ = {t.id for t in s_.targets}
+                    return not any(isinstance(x, ast.Name) and x.id in names_
+                                   and id(x) not in inside for x in ast.walk(f.node))
+                bad = [s for s in bad if not message_local(s)]
                 inst = f"{f.qualname}@if"
                 run.oblige("Q1", f"{f.qualname}:{n_cond}", not bad,
                            nontrivial=f.qualname in master_names,
